@@ -112,6 +112,7 @@ theorem LConc.step_base (l : LConc H K B V) (hn : BcsNodup l) (a : LStep H K B V
     simp only [LConc.step]
     split
     · split <;> rfl
+    · split <;> rfl
     · rfl
   | bset h k v =>
     refine .inr ⟨fun _ hh => (by cases hh), .inl ?_⟩
@@ -186,6 +187,7 @@ theorem LConc.step_nodup (l : LConc H K B V) (hn : BcsNodup l) (a : LStep H K B 
         · simp
         · exact hn _ bc hb
       · exact keep _ rfl
+    · split <;> exact keep _ rfl
     · exact keep _ rfl
   | bset h k v =>
     simp only [LConc.step]; split
@@ -272,5 +274,296 @@ theorem LConc.run_inv {l : LConc H K B V} {T : Tree K B V} (sched : List (LStep 
     have h1 : (l.step a).base.sc.evictions = l.base.sc.evictions :=
       Nat.le_antisymm (by rw [← hev]; exact LConc.run_ev_le _ (l.step_nodup h.nodup a) rest) (l.step_ev_le h.nodup a)
     exact ih (LConc.step_inv a h h1) (by rw [hev, h1])
+
+/-! ## lookups answered from a pending map -/
+
+/-- pending entry of key `k` in block cache `h` -/
+def LConc.pendAt (l : LConc H K B V) (h : H) (k : K) : Option (Entry V) :=
+  (alookup l.bcs h).bind (fun bc => alookup bc.cache k)
+
+/-- pending entry of key `k` in transaction cache `t` -/
+def LConc.tpendAt (l : LConc H K B V) (t : H) (k : K) : Option (Entry V) :=
+  (alookup l.tcs t).bind (fun tc => alookup tc.cache k)
+
+/-- the answer a step gives out of a pending map, if it gives one: `BlockCache.Get` with an entry for the key in the block's
+    pending map (block cache not locked), `TransactionCache.Get` with an entry in the transaction's map or, failing that,
+    in its block's pending map (transaction not committing, block cache not locked) -/
+def LConc.directAns (l : LConc H K B V) : LStep H K B V → Option (H × K × Option V)
+  | .bget h k =>
+    match alookup l.bcs h with
+    | some bc => if l.isBusy h then none else (alookup bc.cache k).map (fun e => (h, k, e.result))
+    | none => none
+  | .tget t k =>
+    match alookup l.tcs t with
+    | some tc =>
+      if l.inJob t then none else
+      match alookup tc.cache k with
+      | some e => some (t, k, e.result)
+      | none =>
+        match tc.main with
+        | .block h =>
+          match alookup l.bcs h with
+          | some bc => if l.isBusy h then none else (alookup bc.cache k).map (fun e => (t, k, e.result))
+          | none => none
+        | .query _ => none
+    | none => none
+  | _ => none
+
+theorem LConc.lookupBlock_direct (l : LConc H K B V) (who h : H) (k : K) :
+    (l.lookupBlock who h k).direct =
+      (match alookup l.bcs h with
+       | some bc => if l.isBusy h then none else (alookup bc.cache k).map (fun (e : Entry V) => (who, k, e.result))
+       | none => none).toList ++ l.direct := by
+  unfold LConc.lookupBlock
+  cases hb : alookup l.bcs h with
+  | none => rfl
+  | some bc =>
+    simp only
+    by_cases hbusy : l.isBusy h = true
+    · simp [hbusy]
+    · simp only [hbusy]
+      cases he : alookup bc.cache k with
+      | none => rfl
+      | some e => rfl
+
+/-- a step adds to the log of direct answers exactly the answer it gives out of a pending map -/
+theorem LConc.step_direct (l : LConc H K B V) (a : LStep H K B V) :
+    (l.step a).direct = (l.directAns a).toList ++ l.direct := by
+  cases a with
+  | sc tid =>
+    simp only [LConc.step, LConc.directAns]
+    split
+    · split <;> rfl
+    · split <;> rfl
+    · rfl
+  | bset h k v => simp only [LConc.step, LConc.directAns]; split
+                  · split <;> rfl
+                  · rfl
+  | bget h k => simp only [LConc.step, LConc.directAns]; exact l.lookupBlock_direct h h k
+  | bcBegin h => simp only [LConc.step, LConc.directAns]; split
+                 · split <;> rfl
+                 · rfl
+  | tset t k v => simp only [LConc.step, LConc.directAns]; split
+                  · split <;> rfl
+                  · rfl
+  | trem t k => simp only [LConc.step, LConc.directAns]; split
+                · split <;> rfl
+                · rfl
+  | tget t k =>
+    simp only [LConc.step, LConc.directAns]
+    cases ht : alookup l.tcs t with
+    | none => rfl
+    | some tc =>
+      simp only
+      by_cases hj : l.inJob t = true
+      · simp [hj]
+      · simp only [hj]
+        cases he : alookup tc.cache k with
+        | some e => rfl
+        | none =>
+          simp only
+          cases hm : tc.main with
+          | block h => simp only; exact l.lookupBlock_direct t h k
+          | query b => rfl
+  | tcBegin t => simp only [LConc.step, LConc.directAns]; split
+                 · split
+                   · split <;> rfl
+                   · rfl
+                 · rfl
+  | tcApply t =>
+    simp only [LConc.step, LConc.directAns]; split
+    · rfl
+    · split
+      · split <;> rfl
+      · split
+        · split <;> rfl
+        · rfl
+
+theorem LConc.run_append (l : LConc H K B V) (s1 s2 : List (LStep H K B V)) : l.run (s1 ++ s2) = (l.run s1).run s2 := by
+  unfold LConc.run; rw [List.foldl_append]
+
+/-- every direct answer in the log of a run was given by one step of the schedule, out of the pending map as it was in the
+    configuration reached just before that step -/
+theorem LConc.run_direct_mem (l : LConc H K B V) (sched : List (LStep H K B V)) (x : H × K × Option V)
+    (hx : x ∈ (l.run sched).direct) :
+    x ∈ l.direct ∨ ∃ pre a post, sched = pre ++ a :: post ∧ (l.run pre).directAns a = some x := by
+  induction sched generalizing l with
+  | nil => exact .inl hx
+  | cons a rest ih =>
+    rw [LConc.run_cons] at hx
+    rcases ih (l.step a) hx with h1 | ⟨pre, a', post, hs, hd⟩
+    · rw [LConc.step_direct] at h1
+      rcases List.mem_append.mp h1 with h2 | h2
+      · refine .inr ⟨[], a, rest, rfl, ?_⟩
+        cases hda : l.directAns a with
+        | none => rw [hda] at h2; simp at h2
+        | some y => rw [hda] at h2; simp at h2; rw [h2]; exact hda
+      · exact .inl h2
+    · exact .inr ⟨a :: pre, a', post, by rw [hs]; rfl, by rw [LConc.run_cons]; exact hd⟩
+
+/-- what `directAns` means for `BlockCache.Get` -/
+theorem LConc.directAns_bget {l : LConc H K B V} {h : H} {k : K} {x : H × K × Option V}
+    (hd : l.directAns (.bget h k) = some x) : ∃ e, l.pendAt h k = some e ∧ x = (h, k, e.result) := by
+  simp only [LConc.directAns] at hd
+  cases hb : alookup l.bcs h with
+  | none => rw [hb] at hd; cases hd
+  | some bc =>
+    rw [hb] at hd; simp only at hd
+    by_cases hbusy : l.isBusy h = true
+    · simp [hbusy] at hd
+    · simp only [hbusy] at hd
+      cases he : alookup bc.cache k with
+      | none => rw [he] at hd; cases hd
+      | some e =>
+        rw [he] at hd
+        refine ⟨e, by simp [LConc.pendAt, hb, he], ?_⟩
+        simp at hd; exact hd.symm
+
+/-- what `directAns` means for `TransactionCache.Get`: the transaction's own entry, else its block's -/
+theorem LConc.directAns_tget {l : LConc H K B V} {t : H} {k : K} {x : H × K × Option V}
+    (hd : l.directAns (.tget t k) = some x) :
+    ∃ e, x = (t, k, e.result) ∧
+      (l.tpendAt t k = some e ∨
+       (l.tpendAt t k = none ∧ ∃ tc h, alookup l.tcs t = some tc ∧ tc.main = .block h ∧ l.pendAt h k = some e)) := by
+  simp only [LConc.directAns] at hd
+  cases ht : alookup l.tcs t with
+  | none => rw [ht] at hd; cases hd
+  | some tc =>
+    rw [ht] at hd; simp only at hd
+    by_cases hj : l.inJob t = true
+    · simp [hj] at hd
+    · simp only [hj] at hd
+      cases he : alookup tc.cache k with
+      | some e =>
+        rw [he] at hd; simp at hd
+        exact ⟨e, hd.symm, .inl (by simp [LConc.tpendAt, ht, he])⟩
+      | none =>
+        rw [he] at hd; simp only at hd
+        cases hm : tc.main with
+        | query b => rw [hm] at hd; cases hd
+        | block h =>
+          rw [hm] at hd; simp only at hd
+          cases hb : alookup l.bcs h with
+          | none => rw [hb] at hd; cases hd
+          | some bc =>
+            rw [hb] at hd; simp only at hd
+            by_cases hbusy : l.isBusy h = true
+            · simp [hbusy] at hd
+            · simp only [hbusy] at hd
+              cases he2 : alookup bc.cache k with
+              | none => rw [he2] at hd; cases hd
+              | some e =>
+                rw [he2] at hd; simp at hd
+                exact ⟨e, hd.symm, .inr ⟨by simp [LConc.tpendAt, ht, he], tc, h, rfl, hm, by simp [LConc.pendAt, hb, he2]⟩⟩
+
+theorem LConc.pendAt_aset (l l' : LConc H K B V) (h0 h : H) (bc : BC K B V) (k : K)
+    (hs : l'.bcs = aset l.bcs h0 bc) :
+    l'.pendAt h k = if h0 = h then alookup bc.cache k else l.pendAt h k := by
+  unfold LConc.pendAt
+  rw [hs, alookup_aset]
+  by_cases e : h0 = h <;> simp [e]
+
+/-- per key, the pending map of a block cache changes only by a write to THAT key in THAT block cache — `BlockCache.Set`, or
+    the `setValue` step of a transaction commit that carries that key — or is emptied when the block's own commit returns
+    (from then on the block's committed entry answers, `base` = own hash). So what a lookup reads out of a pending map is
+    the latest write to that key in that block issued before the read: the block's pre-commit view, old or new. -/
+theorem LConc.step_pendAt (l : LConc H K B V) (a : LStep H K B V) (h : H) (k : K) :
+    (l.step a).pendAt h k = l.pendAt h k ∨
+    (∃ v, a = .bset h k v ∧ (l.step a).pendAt h k = some (.val v)) ∨
+    (∃ t j e rest, a = .tcApply t ∧ l.jobs.find? (fun j => j.t == t) = some j ∧ j.h = h ∧ j.rest = (k, e) :: rest ∧
+      (l.step a).pendAt h k = some e) ∨
+    (∃ tid, a = .sc tid ∧ (l.step a).pendAt h k = none) := by
+  have keep : ∀ l' : LConc H K B V, l'.bcs = l.bcs → l'.pendAt h k = l.pendAt h k := by
+    intro l' hs; unfold LConc.pendAt; rw [hs]
+  cases a with
+  | sc tid =>
+    simp only [LConc.step]
+    split
+    · split
+      · rename_i h' _ _ _ _ _ _ eff bc _ hb
+        by_cases e : h' = h
+        · subst e
+          cases eff with
+          | true =>
+            refine .inr (.inr (.inr ⟨tid, rfl, ?_⟩))
+            rw [LConc.pendAt_aset l _ h' h' _ k rfl]; simp [alookup]
+          | false =>
+            refine .inl ?_
+            rw [LConc.pendAt_aset l _ h' h' _ k rfl]; simp [LConc.pendAt, hb]
+        · refine .inl ?_
+          rw [LConc.pendAt_aset l _ h' h _ k rfl]; simp [e]
+      · exact .inl (keep _ rfl)
+    · split <;> exact .inl (keep _ rfl)
+    · exact .inl (keep _ rfl)
+  | bset h' k' v =>
+    simp only [LConc.step]; split
+    · rename_i bc hb
+      split
+      · exact .inl (keep _ rfl)
+      · by_cases e : h' = h
+        · subst e
+          by_cases ek : k' = k
+          · subst ek
+            refine .inr (.inl ⟨v, rfl, ?_⟩)
+            rw [LConc.pendAt_aset l _ h' h' _ k' rfl]; simp [BC.set, alookup_aset]
+          · refine .inl ?_
+            rw [LConc.pendAt_aset l _ h' h' _ k rfl]; simp [BC.set, alookup_aset, ek, LConc.pendAt, hb]
+        · refine .inl ?_
+          rw [LConc.pendAt_aset l _ h' h _ k rfl]; simp [e]
+    · exact .inl (keep _ rfl)
+  | bget h' k' => exact .inl (keep _ (l.lookupBlock_base h' h' k').1)
+  | bcBegin h' => simp only [LConc.step]; split
+                  · split <;> exact .inl (keep _ rfl)
+                  · exact .inl (keep _ rfl)
+  | tset t k' v => simp only [LConc.step]; split
+                   · split <;> exact .inl (keep _ rfl)
+                   · exact .inl (keep _ rfl)
+  | trem t k' => simp only [LConc.step]; split
+                 · split <;> exact .inl (keep _ rfl)
+                 · exact .inl (keep _ rfl)
+  | tget t k' =>
+    simp only [LConc.step]; split
+    · split
+      · exact .inl (keep _ rfl)
+      · split
+        · exact .inl (keep _ rfl)
+        · split
+          · exact .inl (keep _ (l.lookupBlock_base _ _ _).1)
+          · exact .inl (keep _ rfl)
+    · exact .inl (keep _ rfl)
+  | tcBegin t => simp only [LConc.step]; split
+                 · split
+                   · split <;> exact .inl (keep _ rfl)
+                   · exact .inl (keep _ rfl)
+                 · exact .inl (keep _ rfl)
+  | tcApply t =>
+    simp only [LConc.step]
+    cases hf : l.jobs.find? (fun j => j.t == t) with
+    | none => exact .inl (keep _ rfl)
+    | some j =>
+      simp only
+      cases hr : j.rest with
+      | nil => simp only; split <;> exact .inl (keep _ rfl)
+      | cons p rest =>
+        obtain ⟨k', e⟩ := p
+        simp only
+        cases hb : alookup l.bcs j.h with
+        | none => exact .inl (keep _ rfl)
+        | some bc =>
+          simp only
+          by_cases hbusy : l.isBusy j.h = true
+          · rw [if_pos hbusy]; exact .inl rfl
+          · rw [if_neg hbusy]
+            by_cases eh : j.h = h
+            · by_cases ek : k' = k
+              · subst ek
+                refine .inr (.inr (.inl ⟨t, j, e, rest, rfl, hf, eh, hr, ?_⟩))
+                rw [LConc.pendAt_aset l _ j.h h _ k' rfl]; simp [eh, BC.setValue, alookup_aset]
+              · refine .inl ?_
+                rw [LConc.pendAt_aset l _ j.h h _ k rfl]
+                simp [eh, BC.setValue, alookup_aset, ek, LConc.pendAt]
+                rw [← eh, hb]; rfl
+            · refine .inl ?_
+              rw [LConc.pendAt_aset l _ j.h h _ k rfl]; simp [eh]
 
 end Verif.SC
